@@ -10,6 +10,7 @@ import sys
 from .. import core, harness, vloop
 
 PROP = 'C11'
+TECHNIQUE = ('runtime monitoring: invariant at the SBlock.event boundary (per-block busy depth, legitimacy of nested entries) + follow-up probe events after every harmless outcome')
 LEVEL = 'exploration'
 RULE = ("case = random directed event graph (self-loops, cycles, diamonds) over 2..6 blocks of "
         "kinds Probe / Input / Counter / toggle-FSM (with chaining entry action or zero timer) / "
